@@ -322,13 +322,36 @@ func replayMain(file string) int {
 	if err := json.Unmarshal(b, &rp); err != nil {
 		fatal(err)
 	}
-	batch := &Batch{Property: rp.Property, Seed: rp.Seed}
+	batch := &Batch{Property: rp.Property, Seed: rp.Seed, Params: rp.Params}
+	if kf := os.Getenv("VERIF_KNOWN_FILE"); kf != "" {
+		if kb, err := os.ReadFile(kf); err == nil {
+			var ks []KnownFinding
+			if json.Unmarshal(kb, &ks) == nil {
+				for _, k := range ks {
+					if k.Property == rp.Property && k.Status == "open" {
+						batch.Known = append(batch.Known, k)
+					}
+				}
+			}
+		}
+	}
 	for _, p := range rp.Programs {
 		batch.Programs = append(batch.Programs, BatchProg{ID: p.ID, Schema: p.Schema, Bop: p.Bop, Old: p.Old, OldBop: p.OldBop})
 	}
 	n, err := newNode(batch)
 	if err != nil {
 		fatal(err)
+	}
+	if rp.Scenario.Kind == "rerun" {
+		// the recorded case killed the process: run that run again, whole
+		fn := props[rp.Property]
+		if fn == nil {
+			fatal(fmt.Errorf("property %s has no simulation", rp.Property))
+		}
+		c := &Ctx{N: n, Run: rp.Run, R: prng.Derive(rp.Seed, rp.Property, uint64(rp.Run))}
+		got := fn(c)
+		json.NewEncoder(os.Stdout).Encode(map[string]interface{}{"reproduced": false, "note": "the run completed without killing the process", "violation": got != nil})
+		return 0
 	}
 	ex := execs[rp.Scenario.Kind]
 	if ex == nil {
